@@ -88,40 +88,79 @@ def admissible : Event → Bool
   | .resetSeq => false
   | _ => true
 
-theorem step_goodH (sr : Msg → Bool) (c : Conn) (ev : Event) (hadm : admissible ev = true)
+/-- the inbound frame an event processes -/
+def evMsg : Event → Option Msg
+  | .recv _ m => some m
+  | _ => none
+
+theorem step_good (sr : Msg → Bool) (c : Conn) (ev : Event) (hadm : admissible ev = true)
     (hex : excFree (step sr c ev).2 = true) (hpos : 0 < c.sess.nextIn) :
-    GoodH c (step sr c ev).1 (step sr c ev).2 := by
+    Good (evMsg ev) c (step sr c ev).1 (step sr c ev).2 := by
   cases ev with
   | recv env m =>
     obtain ⟨a, hx⟩ := run_excFree (x := processMessage env sr m) hex
-    exact ((processMessage_good env sr m).out _ _ _ _ hx hex hpos).toH
+    exact (processMessage_good env sr m).out _ _ _ _ hx hex hpos
   | appSend env m =>
     obtain ⟨a, hx⟩ := run_excFree (x := sendMsg env m) hex
     have hnew : ownSeq m = false := by simpa [admissible] using hadm
-    exact ((sendMsg_good (g := excFree) (om := none) env m hnew).out _ _ _ _ hx hex).toH
+    exact (sendMsg_good (g := excFree) (om := none) env m hnew).out _ _ _ _ hx hex
   | appTestReq env =>
     obtain ⟨a, hx⟩ := run_excFree (x := sendTestReq env) hex
-    exact ((sendTestReq_good (g := excFree) (om := none) env).out _ _ _ _ hx hex).toH
+    exact (sendTestReq_good (g := excFree) (om := none) env).out _ _ _ _ hx hex
   | appDisconnect env d l =>
     obtain ⟨a, hx⟩ := run_excFree (x := disconnect env d l) hex
-    exact ((disconnect_good (g := excFree) (om := none) env d l).out _ _ _ _ hx hex).toH
+    exact (disconnect_good (g := excFree) (om := none) env d l).out _ _ _ _ hx hex
   | tick env =>
     obtain ⟨a, hx⟩ := run_excFree (x := tickBody env) hex
-    exact ((tickBody_good (g := excFree) (om := none) env).out _ _ _ _ hx hex).toH
+    exact (tickBody_good (g := excFree) (om := none) env).out _ _ _ _ hx hex
   | eof env =>
     change excFree (eof env c).2 = true at hex
-    show GoodH c (eof env c).1 (eof env c).2
+    show Good none c (eof env c).1 (eof env c).2
     unfold eof at hex ⊢
     split
     · rename_i hs
       rw [if_pos hs] at hex
       obtain ⟨a, hx⟩ := run_excFree (x := disconnect env st_DISCONNECTED_BROKEN_CONN none) hex
-      exact ((disconnect_good (g := excFree) (om := none) env _ _).out _ _ _ _ hx hex).toH
+      exact (disconnect_good (g := excFree) (om := none) env _ _).out _ _ _ _ hx hex
     · exact Compositional.refl c
   | connected k =>
     obtain ⟨a, hx⟩ := run_excFree (x := connectedM k) hex
-    exact ((connectedM_good (g := excFree) (om := none) k).out _ _ _ _ hx hex).toH
+    exact (connectedM_good (g := excFree) (om := none) k).out _ _ _ _ hx hex
   | resetSeq => simp [admissible] at hadm
+
+theorem step_goodH (sr : Msg → Bool) (c : Conn) (ev : Event) (hadm : admissible ev = true)
+    (hex : excFree (step sr c ev).2 = true) (hpos : 0 < c.sess.nextIn) :
+    GoodH c (step sr c ev).1 (step sr c ev).2 := (step_good sr c ev hadm hex hpos).toH
+
+/-- a SequenceReset whose NewSeqNo is not its MsgSeqNum + 1 (or cannot be read): the D13 class -/
+def jumpReset : Event → Bool
+  | .recv _ m =>
+    m.mtype == mSequenceReset &&
+      (match seqOf m, newSeqOf m with
+       | some a, some b => b != a + 1
+       | _, _ => true)
+  | _ => false
+
+/-- without a jump reset the stored inbound counter stays exactly one behind the live one -/
+theorem step_exact (sr : Msg → Bool) (c : Conn) (ev : Event) (hadm : admissible ev = true)
+    (hnj : jumpReset ev = false) (hex : excFree (step sr c ev).2 = true) (hpos : 0 < c.sess.nextIn)
+    (hi : InExact c) : InExact (step sr c ev).1 := by
+  have hg := step_good sr c ev hadm hex hpos
+  rcases hg.inb with hs | hb | ⟨m, hm, hl⟩
+  · exact hi.of_same hs
+  · exact hb
+  · cases ev with
+    | recv env m' =>
+      simp only [evMsg, Option.some.injEq] at hm
+      subst hm
+      simp only [lagBy, Bool.and_eq_true, beq_iff_eq] at hl
+      obtain ⟨⟨⟨h4, _⟩, hsq⟩, hnq⟩ := hl
+      simp only [jumpReset, h4, beq_self_eq_true, Bool.true_and, hsq, hnq] at hnj
+      unfold InExact
+      have : (step sr c (Event.recv env m')).1.sess.nextIn = (step sr c (Event.recv env m')).1.journal.inSeq + 1 := by
+        simpa using hnj
+      exact this.symm
+    | _ => simp [evMsg] at hm
 
 /-- histories -/
 theorem run_goodH (sr : Msg → Bool) (evs : List Event) (c : Conn)
@@ -135,5 +174,21 @@ theorem run_goodH (sr : Msg → Bool) (evs : List Event) (c : Conn)
     have h1 := step_goodH sr c ev (hadm ev (List.mem_cons_self ..)) hex.1 hq.2.1
     have h2 := ih (step sr c ev).1 (fun e he => hadm e (List.mem_cons_of_mem _ he)) hex.2 (h1.quiet hq)
     exact Compositional.trans h1 h2
+
+
+theorem run_exact (sr : Msg → Bool) (evs : List Event) (c : Conn)
+    (hadm : ∀ ev ∈ evs, admissible ev = true) (hnj : ∀ ev ∈ evs, jumpReset ev = false)
+    (hex : excFree (run sr c evs).2 = true) (hq : Quiet c) (hi : InExact c) :
+    InExact (run sr c evs).1 := by
+  induction evs generalizing c with
+  | nil => exact hi
+  | cons ev rest ih =>
+    simp only [run] at hex ⊢
+    rw [excFree_append, Bool.and_eq_true] at hex
+    have h1 := step_goodH sr c ev (hadm ev (List.mem_cons_self ..)) hex.1 hq.2.1
+    have h1e := step_exact sr c ev (hadm ev (List.mem_cons_self ..)) (hnj ev (List.mem_cons_self ..)) hex.1
+      hq.2.1 hi
+    exact ih (step sr c ev).1 (fun e he => hadm e (List.mem_cons_of_mem _ he))
+      (fun e he => hnj e (List.mem_cons_of_mem _ he)) hex.2 (h1.quiet hq) h1e
 
 end AsyncFix.Restart
